@@ -73,7 +73,7 @@ type plainReader struct{ r io.Reader }
 
 func (p plainReader) Read(b []byte) (int, error) { return p.r.Read(b) }
 
-var c08Ops = []string{"Write", "WriteReader", "AppendAfterPartial", "AppendReader", "Delete", "DeleteBatch", "RemoveDirectory",
+var c08Ops = []string{"Write", "WriteReader", "AppendAfterPartial", "AppendShortClean", "WriteReaderShortClean", "AppendReader", "Delete", "DeleteBatch", "RemoveDirectory",
 	"List", "ListObjects", "ListDirectories", "GetFullPath", "Read", "ReadTo", "ReadToAt", "StatFile", "Exists"}
 
 type c08Step struct {
@@ -125,7 +125,7 @@ func TestVerifC08_Confinement(t *testing.T) {
 			op := rapid.SampledFrom(c08Ops).Draw(t, "op")
 			data := []byte("payload-" + strconv.Itoa(i) + "-" + rapid.StringMatching(`[a-z]{0,20}`).Draw(t, "data"))
 
-			if (op == "WriteReader" || op == "AppendReader" || op == "AppendAfterPartial") && verifkit.Excluded(kfC08RootPart) &&
+			if (op == "WriteReader" || op == "AppendReader" || op == "AppendAfterPartial" || op == "AppendShortClean" || op == "WriteReaderShortClean") && verifkit.Excluded(kfC08RootPart) &&
 				b.GetFullPath(key) == j.Root {
 				// shape of the open known finding: the backend itself says the key is the root
 				verifkit.CountExcluded(kfC08RootPart)
@@ -179,6 +179,75 @@ func TestVerifC08_Confinement(t *testing.T) {
 						t.Fatalf("VERIF-FAIL class=C08/append-not-readable key=%q cut=%d: resumed append succeeded but Read gave %q, %v", key, cut, got, rerr)
 					}
 					verifkit.Class("append-resumed-ok")
+				}
+			case "AppendShortClean", "WriteReaderShortClean":
+				// A source that ends with a CLEAN io.EOF before delivering the announced
+				// number of bytes (the sender died and its stream was closed gracefully).
+				// The final name must never show the truncated bytes.
+				fp := b.GetFullPath(key)
+				var prev []byte
+				prevExists := false
+				if fp != "" {
+					if st, err := os.Lstat(fp); err == nil && st.Mode().IsRegular() {
+						prev, _ = os.ReadFile(fp)
+						prevExists = true
+					}
+				}
+				// finalState: "absent" (or not a regular file), "previous", "complete", or "" = something else
+				finalState := func(complete []byte) (string, []byte) {
+					if fp == "" || !j.Inside(fp) {
+						return "absent", nil
+					}
+					cur, rerr := os.ReadFile(fp)
+					switch {
+					case rerr != nil:
+						return "absent", nil
+					case bytes.Equal(cur, complete):
+						return "complete", cur
+					case prevExists && bytes.Equal(cur, prev):
+						return "previous", cur
+					}
+					return "", cur
+				}
+				if op == "WriteReaderShortClean" {
+					got := rapid.IntRange(0, len(data)-1).Draw(t, "got")
+					opErr = b.WriteReader(ctx, key, plainReader{bytes.NewReader(data[:got])}, int64(len(data)))
+					// LocalBackend.WriteReader treats size as a hint: a cleanly ended stream IS the
+					// object. What may appear under the final name is therefore exactly the delivered
+					// stream (or nothing / the previous object) - never some other cut of it.
+					if st, cur := finalState(data[:got]); st == "" {
+						t.Fatalf("VERIF-FAIL class=C08/short-stream-final-garbled key=%q: reader delivered %d of %d announced bytes cleanly, final path holds %d bytes %q",
+							key, got, len(data), len(cur), cur)
+					} else {
+						verifkit.Class("short-writereader-final:" + st)
+					}
+					break
+				}
+				cut := rapid.IntRange(0, len(data)-1).Draw(t, "cut")
+				e1 := b.WriteReader(ctx, key, &failAfterReader{data: data, n: cut}, int64(len(data)))
+				var viol string
+				snap, _, viol = j.CheckConfined(snap)
+				if viol != "" {
+					t.Fatalf("VERIF-FAIL class=C08/escape-WriteReader key=%q (failing reader, err=%v): %s", key, e1, viol)
+				}
+				rest := data[cut:]
+				got := rapid.IntRange(0, len(rest)-1).Draw(t, "got")
+				opErr = b.AppendReader(ctx, key, plainReader{bytes.NewReader(rest[:got])}, int64(len(rest)))
+				st, cur := finalState(data)
+				if st == "" {
+					t.Fatalf("VERIF-FAIL class=C08/short-append-promoted key=%q: .part held %d bytes, the resumed append announced %d bytes but its source ended cleanly after %d; the final path now holds %d bytes %q (intended %d bytes), err=%v",
+						key, cut, len(rest), got, len(cur), cur, len(data), opErr)
+				}
+				verifkit.Class("short-append-final:" + st)
+				if opErr == nil && fp != "" {
+					// the partial must still be resumable: deliver the remainder, now the object is complete
+					if e3 := b.AppendReader(ctx, key, plainReader{bytes.NewReader(rest[got:])}, int64(len(rest)-got)); e3 == nil {
+						gotAll, rerr := b.Read(ctx, key)
+						if rerr != nil || !bytes.Equal(gotAll, data) {
+							t.Fatalf("VERIF-FAIL class=C08/short-append-not-resumable key=%q cut=%d got=%d: completing the resume succeeded but Read gave %q, %v", key, cut, got, gotAll, rerr)
+						}
+						verifkit.Class("short-append-then-completed")
+					}
 				}
 			case "AppendReader":
 				opErr = b.AppendReader(ctx, key, plainReader{bytes.NewReader(data)}, int64(len(data)))
@@ -354,6 +423,7 @@ func c08ChildOp() {
 	key := os.Getenv("C08_KEY")
 	size, _ := strconv.Atoi(os.Getenv("C08_SIZE"))
 	seed, _ := strconv.Atoi(os.Getenv("C08_SEED"))
+	short, _ := strconv.Atoi(os.Getenv("C08_SHORT")) // bytes announced but never delivered (source ends with a clean EOF)
 	b, err := NewLocalBackend(root, zerolog.Nop())
 	if err != nil {
 		fmt.Fprintln(os.Stderr, "child:", err)
@@ -367,7 +437,7 @@ func c08ChildOp() {
 	case "writereader":
 		err = b.WriteReader(ctx, key, plainReader{bytes.NewReader(data)}, int64(size))
 	case "append":
-		err = b.AppendReader(ctx, key, plainReader{bytes.NewReader(data)}, int64(size))
+		err = b.AppendReader(ctx, key, plainReader{bytes.NewReader(data)}, int64(size+short))
 	default:
 		err = errors.New("unknown C08_OP")
 	}
@@ -389,13 +459,18 @@ type c08Scenario struct {
 	Overwrite  bool   `json:"overwrite"`  // final path already holds older content
 	StalePart  int    `json:"stale_part"` // bytes of a pre-existing "<final>.part" (-1 none); for append: the prefix already staged
 	FreshDirs  bool   `json:"fresh_dirs"` // parent directories do not exist yet
+	Short      int    `json:"short"`      // append only: bytes announced (appendSize) beyond what the source delivers before its clean EOF
 	seed       int
 	intended   []byte
 	oldContent []byte
 }
 
 func (s c08Scenario) name() string {
-	return fmt.Sprintf("%s/size=%d/overwrite=%v/part=%d/freshdirs=%v", s.Op, s.Size, s.Overwrite, s.StalePart, s.FreshDirs)
+	n := fmt.Sprintf("%s/size=%d/overwrite=%v/part=%d/freshdirs=%v", s.Op, s.Size, s.Overwrite, s.StalePart, s.FreshDirs)
+	if s.Short > 0 {
+		n += fmt.Sprintf("/short-by=%d", s.Short)
+	}
+	return n
 }
 
 type c08Sys struct {
@@ -464,6 +539,11 @@ func c08Setup(s *c08Scenario) (*jail.Jail, error) {
 		}
 		if s.Op == "append" {
 			s.intended = append(append([]byte{}, part...), data...)
+			if s.Short > 0 {
+				// the announced tail is longer than what the source delivers: the complete
+				// object never exists in this scenario, so the final name must stay untouched
+				s.intended = append(s.intended, c08Content(s.seed+11, s.Short)...)
+			}
 		}
 	}
 	return j, nil
@@ -490,7 +570,7 @@ func c08Run(j *jail.Jail, s *c08Scenario, dry []c08Sys, killAt int) (entries []c
 	cmd := exec.Command("strace", args...)
 	cmd.Env = []string{"PATH=" + os.Getenv("PATH"), "HOME=" + j.Base, "TMPDIR=" + j.Base, "GOMAXPROCS=2",
 		"VERIF_MODE=c08-op", "C08_ROOT=" + j.Root, "C08_OP=" + s.Op, "C08_KEY=" + s.Key,
-		"C08_SIZE=" + strconv.Itoa(s.Size), "C08_SEED=" + strconv.Itoa(s.seed)}
+		"C08_SIZE=" + strconv.Itoa(s.Size), "C08_SEED=" + strconv.Itoa(s.seed), "C08_SHORT=" + strconv.Itoa(s.Short)}
 	var eb bytes.Buffer
 	cmd.Stderr = &eb
 	rerr := cmd.Run()
@@ -549,6 +629,17 @@ func c08Scenarios() []c08Scenario {
 			}
 		}
 	}
+	// resumed append whose source ends cleanly BEFORE the announced tail is complete:
+	// nothing may be promoted, at any kill point or when the call runs to completion
+	shortSizes := []int{0, 40000}
+	if verifkit.Tier() == "thorough" {
+		shortSizes = []int{0, 1, 32768, 40000, 1 << 20}
+	}
+	for _, sz := range shortSizes {
+		for _, ow := range []bool{false, true} {
+			add(c08Scenario{Op: "append", Size: sz, Overwrite: ow, StalePart: 1000, Short: 5000})
+		}
+	}
 	return out
 }
 
@@ -588,6 +679,9 @@ func c08RunScenario(scn c08Scenario) (out c08Outcome) {
 		if first >= 0 && strings.HasPrefix(e.Name, "rename") {
 			rename = i
 		}
+	}
+	if s.Short > 0 && rename < 0 {
+		rename = len(dry) // no promotion is expected: every syscall after the first write is "before the rename"
 	}
 	if first < 0 || rename < 0 {
 		return hfail("dry run shows no file-system syscalls under the root (first=%d rename=%d): %v", first, rename, dry)
@@ -649,7 +743,14 @@ func c08RunScenario(scn c08Scenario) (out c08Outcome) {
 				s.name(), where, len(content), len(s.intended)))
 		}
 		verifkit.Class("final:" + state)
-		if !wantKill {
+		if !wantKill && s.Short > 0 {
+			// uninterrupted short append: nothing is promoted and the partial stays resumable
+			part, _ := os.ReadFile(final + ".part")
+			if code != 0 || state == "complete" || len(part) != s.StalePart+s.Size {
+				out.violations = append(out.violations, fmt.Sprintf("VERIF-FAIL class=C08/short-append-wrong scenario=%s: uninterrupted run exit=%d final=%s .part=%d bytes (want %d) stderr=%s",
+					s.name(), code, state, len(part), s.StalePart+s.Size, stderr))
+			}
+		} else if !wantKill {
 			if code != 0 || state != "complete" {
 				out.violations = append(out.violations, fmt.Sprintf("VERIF-FAIL class=C08/completed-write-wrong scenario=%s: uninterrupted run exit=%d final=%s stderr=%s", s.name(), code, state, stderr))
 			}
